@@ -40,7 +40,7 @@ func newGen(c *hx.Ctx, i int) *generator {
 func (g *generator) rnd(n int) int { return g.c.Intn(n) }
 
 func (g *generator) setup() {
-	st := setup{Funded: true, Bal: map[int]uint64{}}
+	st := setup{Funded: g.rnd(6) != 0, Bal: map[int]uint64{}}
 	if g.regime == "selfgov" {
 		st.Height0 = constants.UINT64_WRAPPING_MAINNET + 1000
 	} else {
@@ -201,6 +201,17 @@ func (g *generator) next() op {
 			o.Addr = genesisOwnerA + g.rnd(firstAuth-genesisOwnerA)
 			o.Signer = o.Addr
 		}
+		// most of the time: somebody who has unfrozen positions
+		var ready []infoObs
+		for _, i := range g.o.Infos {
+			if i.B[5] > 0 {
+				ready = append(ready, i)
+			}
+		}
+		if len(ready) > 0 && g.rnd(4) != 0 {
+			o.Addr = ready[g.rnd(len(ready))].Addr
+			o.Signer = o.Addr
+		}
 		infos := g.infosOf(o.Addr)
 		n := 1 + g.rnd(2)
 		for i := 0; i < n; i++ {
@@ -208,8 +219,12 @@ func (g *generator) next() op {
 				inf := infos[g.rnd(len(infos))]
 				o.Peers = append(o.Peers, inf.Peer)
 				switch {
-				case inf.B[5] > 0 && g.rnd(3) != 0:
-					o.Pos = append(o.Pos, uint32(1+uint64(g.rnd(int(inf.B[5])))))
+				case inf.B[5] > 0 && g.rnd(4) != 0:
+					if g.rnd(3) == 0 {
+						o.Pos = append(o.Pos, uint32(inf.B[5]))
+					} else {
+						o.Pos = append(o.Pos, uint32(1+uint64(g.rnd(int(inf.B[5])))))
+					}
 				case g.rnd(2) == 0:
 					o.Pos = append(o.Pos, uint32(inf.B[5]+uint64(g.rnd(3))))
 				default:
@@ -363,4 +378,92 @@ func (g *generator) generate() *history {
 	return g.h
 }
 
-func probes() []*history { return nil }
+// probes: fixed histories executed on every run (whatever the seed): the paths the property is
+// about - stake, epoch, unstake, two epochs, withdraw; quit of a node with authorizers;
+// blacklisting of a consensus node with authorizers and the penalty transfer; the
+// register/approve/reject path before self-governed registration.
+func probes() []*history {
+	base := func(h0 uint32) setup {
+		st := setup{Funded: true, Bal: map[int]uint64{3: 5000, 4: 5000, 5: 100000, 6: 100000, 7: 100000, 8: 60000, 9: 60000, 10: 60000},
+			Height0: h0, Time0: constants.CHANGE_UNBOUND_TIMESTAMP_MAINNET + 100000}
+		for i := 1; i <= 7; i++ {
+			st.Peers = append(st.Peers, genesisPeer{Peer: i, Owner: 3 + i%2, Init: uint64(10000 + 1000*i)})
+		}
+		return st
+	}
+	seq := func(st setup, ops ...op) *history {
+		h, t := st.Height0, st.Time0
+		for i := range ops {
+			h++
+			t += 7
+			ops[i].Height, ops[i].Time = h, t
+		}
+		return &history{Setup: st, Ops: ops}
+	}
+	late := uint32(constants.UINT64_WRAPPING_MAINNET + 1000)
+	p1 := seq(base(late),
+		op{Kind: "register", Signer: 5, Addr: 5, Peer: 8, Amount: 30000},
+		op{Kind: "maxauth", Signer: 5, Addr: 5, Peer: 8, Amount: 100000},
+		op{Kind: "authorize", Signer: 8, Addr: 8, Peers: []int{8}, Pos: []uint32{5000}},
+		op{Kind: "authorize", Signer: 9, Addr: 9, Peers: []int{8, 8}, Pos: []uint32{1000, 1500}},
+		op{Kind: "commit", Signer: 1},
+		op{Kind: "unauthorize", Signer: 8, Addr: 8, Peers: []int{8}, Pos: []uint32{2000}},
+		op{Kind: "commit", Signer: 1},
+		op{Kind: "withdraw", Signer: 8, Addr: 8, Peers: []int{8}, Pos: []uint32{2000}}, // still frozen
+		op{Kind: "commit", Signer: 1},
+		op{Kind: "withdraw", Signer: 8, Addr: 8, Peers: []int{8}, Pos: []uint32{2001}},
+		op{Kind: "withdraw", Signer: 8, Addr: 8, Peers: []int{8}, Pos: []uint32{2000}},
+		op{Kind: "withdraw", Signer: 8, Addr: 8, Peers: []int{8}, Pos: []uint32{1}},
+		op{Kind: "quit", Signer: 5, Addr: 5, Peer: 8},
+		op{Kind: "commit", Signer: 1},
+		op{Kind: "commit", Signer: 1},
+		op{Kind: "withdraw", Signer: 9, Addr: 9, Peers: []int{8}, Pos: []uint32{2500}},
+		op{Kind: "withdraw", Signer: 5, Addr: 5, Peers: []int{8}, Pos: []uint32{30000}},
+		op{Kind: "withdraw", Signer: 8, Addr: 8, Peers: []int{8}, Pos: []uint32{3000}},
+	)
+	p2 := seq(base(late),
+		op{Kind: "maxauth", Signer: 4, Addr: 4, Peer: 7, Amount: 100000},
+		op{Kind: "register", Signer: 6, Addr: 6, Peer: 9, Amount: 20000},
+		op{Kind: "authorize", Signer: 8, Addr: 8, Peers: []int{7}, Pos: []uint32{10000}},
+		op{Kind: "authorize", Signer: 9, Addr: 9, Peers: []int{7}, Pos: []uint32{1500}},
+		op{Kind: "commit", Signer: 1},
+		op{Kind: "unauthorize", Signer: 9, Addr: 9, Peers: []int{7}, Pos: []uint32{500}},
+		op{Kind: "black", Signer: 1, Peers: []int{7}}, // consensus node: commits at once
+		op{Kind: "register", Signer: 4, Addr: 4, Peer: 7, Amount: 20000}, // black-listed
+		op{Kind: "withdraw", Signer: 8, Addr: 8, Peers: []int{7}, Pos: []uint32{9500}},
+		op{Kind: "withdraw", Signer: 9, Addr: 9, Peers: []int{7}, Pos: []uint32{1425}},
+		op{Kind: "penalty", Signer: 1, Peer: 7, Addr: 10},
+		op{Kind: "white", Signer: 1, Peer: 7},
+		op{Kind: "register", Signer: 4, Addr: 4, Peer: 7, Amount: 20000},
+	)
+	p3 := seq(base(3_000_000),
+		op{Kind: "register", Signer: 5, Addr: 5, Peer: 8, Amount: 30000, NoTok: true},
+		op{Kind: "register", Signer: 5, Addr: 5, Peer: 8, Amount: 30000},
+		op{Kind: "register", Signer: 6, Addr: 6, Peer: 9, Amount: 12000},
+		op{Kind: "register", Signer: 7, Addr: 7, Peer: 10, Amount: 9000},
+		op{Kind: "authorize", Signer: 8, Addr: 8, Peers: []int{8}, Pos: []uint32{500}}, // not approved yet
+		op{Kind: "approve", Signer: 1, Peer: 10},                                        // below MinInitStake
+		op{Kind: "approve", Signer: 1, Peer: 8},
+		op{Kind: "reject", Signer: 1, Peer: 9},
+		op{Kind: "unregister", Signer: 7, Addr: 7, Peer: 10},
+		op{Kind: "withdraw", Signer: 6, Addr: 6, Peers: []int{9}, Pos: []uint32{12000}},
+		op{Kind: "withdraw", Signer: 7, Addr: 7, Peers: []int{10}, Pos: []uint32{9000}},
+		op{Kind: "maxauth", Signer: 5, Addr: 5, Peer: 8, Amount: 50000},
+		op{Kind: "authorize", Signer: 8, Addr: 8, Peers: []int{8}, Pos: []uint32{500}},
+		op{Kind: "commit", Signer: 1},
+		op{Kind: "reduceinit", Signer: 5, Addr: 5, Peer: 8, Amount: 1000},
+		op{Kind: "addinit", Signer: 5, Addr: 5, Peer: 8, Amount: 2000},
+		op{Kind: "reduceinit", Signer: 5, Addr: 5, Peer: 8, Amount: 1000},
+	)
+	unf := base(late)
+	unf.Funded = false
+	p4 := seq(unf,
+		op{Kind: "quit", Signer: 4, Addr: 4, Peer: 1}, // fewer than K would remain
+		op{Kind: "register", Signer: 5, Addr: 5, Peer: 8, Amount: 30000},
+		op{Kind: "quit", Signer: 4, Addr: 4, Peer: 1},
+		op{Kind: "commit", Signer: 1},
+		op{Kind: "commit", Signer: 1},
+		op{Kind: "withdraw", Signer: 4, Addr: 4, Peers: []int{1}, Pos: []uint32{11000}}, // paid out of the other node's stake
+	)
+	return []*history{p1, p2, p3, p4}
+}
